@@ -126,6 +126,9 @@ def run(chk):
     progs += [hierarchy_program(rng) for _ in range(150 if thorough else 40)]
     progs += generic_union_programs()
     progs += [f["input"] for f in chk.findings if f.get("input")]
+    # collections whose elements have different types, later used where a string is required (the element type is a union
+    # that is substituted for the collection's placeholder)
+    progs += ["def l := %s\nprint(l)\n" % lit for lit in ('[1, "a"]', '{1, "a"}', '[1, 2.5, "a"]', '[True, "a"]', '["a", 1]', '[1, "a", 1]')]
     K, P = (8, 4) if thorough else (4, 3)
     ids = []
     for i, t in enumerate(progs):
